@@ -451,6 +451,9 @@ func runConcurrent(run *vk.Run, idx uint64, pictures int) {
 }
 
 func main() {
+	if _, ok := vk.InChild(); ok {
+		e2eChild()
+	}
 	run := vk.Start("C04")
 	if rep, ok := vk.ReplayInput(); ok {
 		m, _ := rep["replay"].(map[string]any)
@@ -506,6 +509,7 @@ func main() {
 		}()
 	}
 	wg.Wait()
+	e2eTier(run)
 	run.FloorCounter("withheld_above_layer_in_order", 2000)
 	run.FloorCounter("tid_rises", 300)
 	run.FloorCounter("tid_falls", 300)
